@@ -147,6 +147,33 @@ def mk_stream(stype, src, m, inv, cs, k, **ann):
     return c
 
 
+def eff_vf(case):
+    """the value factor a case runs with: `"auto"` = the `value_factor=None` default of ordered_map_valid_indexed_stream (fix
+    NC02c: at least 8, and large enough for the longest entry of the source — `MapValid.autoValueFactor 8` of the model)"""
+    if case["vf"] != "auto":
+        return case["vf"]
+    longest = max([len(x.encode()) for x in case["entries"]] + [0])
+    return max(8, -(-longest // max(case["cs"], 1)))
+
+
+def auto_vf_cases():
+    """value_factor left to the stream itself: sources whose longest entry sits in the last row of a sizing chunk
+    (row ≡ cs-1 mod cs), in the last row of the column, in the first row, and nowhere (all short); every entry mapped"""
+    out = []
+    k = 880000
+    for cs in (1, 2, 3, 4):
+        for n in (cs, cs + 1, 2 * cs, 2 * cs + 1, 3 * cs):
+            for pos in sorted({0, cs - 1, n - 1, min(2 * cs - 1, n - 1), n // 2}):
+                if pos >= n:
+                    continue
+                k += 1
+                entries = ["e%d" % i for i in range(n)]
+                entries[pos] = "L" * (8 * cs + 5 + pos)          # longer than the floor buffer of 8 * cs bytes
+                m = list(range(n)) + [pos]
+                out.append(mk_indexed(entries, m, [-1, (1 << 31) - 1, 1 << 62][k % 3], cs, "auto", k, _auto=1))
+    return out
+
+
 def mk_indexed(entries, m, inv, cs, vf, k, **ann):
     c = {"op": "map_indexed_stream", "entries": entries, "map": m, "inv": inv, "cs": cs, "vf": vf,
          "mdtype": mdtype_for(inv, k), "_n": k}
@@ -156,7 +183,7 @@ def mk_indexed(entries, m, inv, cs, vf, k, **ann):
 
 def gen_cases(tier, rng):
     from checks import corpus
-    cases = list(corpus.load("C04"))
+    cases = list(corpus.load("C04")) + auto_vf_cases()
     L, n = (4, 3) if tier == "quick" else (6, 4)
     maps = small_maps(L, n)
     k = 0
@@ -363,6 +390,8 @@ def malformed_cases(tier, rng):
 def to_model(case):
     c = {k: v for k, v in case.items() if not k.startswith("_")}
     if "entries" in c:
+        if c.get("vf") == "auto":
+            c["vf"] = eff_vf(case)
         c["indices"] = offsets(c["entries"])
         c["values"] = flat_bytes(c["entries"])
         del c["entries"]
@@ -492,7 +521,10 @@ def impl_(case):
             mf.data.write(map_array(e, case))
         dest = fields.IndexedStringMemField(s)
         with step_budget(len(case["map"]) * (len(case["entries"]) + 2) + 16):
-            ops.ordered_map_valid_indexed_stream(src, mf, dest, case["inv"], case["cs"], case["vf"])
+            if case["vf"] == "auto":
+                ops.ordered_map_valid_indexed_stream(src, mf, dest, case["inv"], case["cs"])
+            else:
+                ops.ordered_map_valid_indexed_stream(src, mf, dest, case["inv"], case["cs"], case["vf"])
         return {"indices": [int(x) for x in dest.indices[:].tolist()], "values": [int(x) for x in dest.values[:].tolist()]}
     if op == "next_map_subchunk":
         return {"r": int(ops.next_map_subchunk(map_array(e, case), case["sm"], case["inv"], case["cs"]))}
@@ -586,7 +618,7 @@ def check_spec(case, io, mode):
         ents = case["entries"]
         if not in_regime(case, len(ents), True) or case["cs"] < 1:
             return None
-        cap = case["cs"] * case["vf"]
+        cap = case["cs"] * eff_vf(case)
         if any(len(x.encode()) > cap for x in ents):
             # outside "value buffer can hold the longest entry": a clear error is fine, a spin is not
             if io.get("err") == "hang":
